@@ -394,6 +394,7 @@ CHECKS["C18"] = {
         {"name": "ris-history", "shards": 8},
         {"name": "threads", "shards": 6},
         {"name": "race", "shards": 8},
+        {"name": "repeat", "shards": 8},
         {"name": "threads-tsan", "leg": "threads", "build": "tsan", "shards": 4, "sanitizer": "tsan", "args": ["profile=tsan"]},
         {"name": "race-tsan", "leg": "race", "build": "tsan", "shards": 4, "sanitizer": "tsan", "args": ["profile=tsan"]},
         {"name": "miri", "runner": "miri", "miri_seeds": 16, "tiers": ["thorough"]},
@@ -402,7 +403,7 @@ CHECKS["C18"] = {
             "followed by a fixed probe set whose digest (proof bytes, verdicts, masks, generator encodings) is compared with the digest from a virgin process, on the same thread and on a fresh thread; threads cases: one round of T in {2,4,8,16} threads "
             "each running all jobs (prove, three verify modes, clone/drop parameters, tampered verify) over clones of one parameter object in its own random order with jitter; race cases: one fresh process with T in {2,3,6,8,12,16} threads making the first-ever "
             "generator calls; non-trivial = results were compared (and for threads: overlapping call pairs were observed)",
-    "require": {"quick": {"histories": 80, "probe_comparisons": 160, "virgin_process_probes": 8, "concurrent_rounds": 10, "concurrent_results_compared": 1000, "overlapping_call_pairs": 1000, "fresh_processes": 70, "racing_first_calls": 400, "sanitizer_processes": 8},
+    "require": {"quick": {"histories": 80, "probe_comparisons": 160, "virgin_process_probes": 8, "concurrent_rounds": 10, "concurrent_results_compared": 1000, "overlapping_call_pairs": 1000, "fresh_processes": 70, "racing_first_calls": 400, "sanitizer_processes": 8, "repeated_batches": 8, "repetitions_compared": 70},
                 "thorough": {"histories": 700, "probe_comparisons": 1400, "virgin_process_probes": 16, "concurrent_rounds": 70, "concurrent_results_compared": 15000, "overlapping_call_pairs": 10000, "fresh_processes": 2400, "racing_first_calls": 15000, "sanitizer_processes": 8}},
     "deadline_s": {"quick": 1500, "thorough": 10000},
     "assumptions": COMMON_ASSUMPTIONS + ["explores the schedules the OS scheduler, harness jitter and ThreadSanitizer produce, not all interleavings", "TSan only understands synchronisation it intercepts; std is rebuilt instrumented (-Zbuild-std) so no uninstrumented library is involved"],
